@@ -460,6 +460,8 @@ class IPPO(MultiAgentRLAlgorithm):
             critic.eval()
             with torch.no_grad():
                 action, log_prob, entropy = actor(obs, action_mask=action_mask)
+                # Use -log_prob as entropy when squashing output in continuous action spaces
+                entropy = -log_prob if entropy is None else entropy
                 state_values = critic(obs).squeeze(-1)
 
             # Clip to action space during inference
@@ -719,6 +721,7 @@ class IPPO(MultiAgentRLAlgorithm):
                     value = critic(batch_states).squeeze(-1)
 
                     log_prob = actor.action_log_prob(batch_actions)
+                    entropy = -log_prob if entropy is None else entropy
 
                     if isinstance(action_space, spaces.Box) and action_space.shape == (
                         1,
